@@ -32,6 +32,10 @@ enum Op {
     /// (RLIMIT_FSIZE with SIGXFSZ ignored: the write is refused with EFBIG, possibly after a part
     /// of it went through); 0 lifts the limit
     FileSizeLimit { bytes: u64 },
+    /// environment: from here on somebody else holds an advisory lock (flock) on the file through
+    /// another open handle - shared or exclusive; `None` releases it. Rewriting a location must
+    /// not depend on locks nobody asked it to take
+    AdvisoryLock { exclusive: Option<bool> },
 }
 
 fn containers(seed: u64, tier: Tier) -> Vec<(String, Logical)> {
@@ -142,6 +146,9 @@ fn gen_location(rng: &mut Rng) -> String {
             4 => format!("/abs/{tail}/p.jbkc"),
             5 => format!("<DIR>/packs/{tail}.jbkc"),
             6 => format!("<DIR>/{tail}.jbkc"),
+            // a path through something that is a regular file (looking it up says "not a
+            // directory", not "no such file")
+            7 if rng.chance(1, 2) => format!("<ENTRY>/{tail}.jbkc"),
             _ => format!("file:{tail}.jbkc"),
         };
     }
@@ -192,6 +199,11 @@ fn gen_history(rng: &mut Rng, n_listed: usize, tier: Tier, boundary: &[usize], f
     let mut ops = vec![];
     // one history in five runs into a file size limit somewhere
     let limit_at = if rng.chance(1, 5) { Some(rng.usize_below(len)) } else { None };
+    if rng.chance(1, 6) {
+        ops.push(Op::AdvisoryLock {
+            exclusive: Some(rng.chance(1, 2)),
+        });
+    }
     // bias towards the same pack rewritten several times (long then short), and the last slot
     let mut hot = if rng.chance(1, 3) { n_listed - 1 } else { rng.usize_below(n_listed) };
     if !boundary.is_empty() && rng.chance(1, 2) {
@@ -425,7 +437,21 @@ fn run_history(dir: &Path, img: &Image, ops: &[Op]) -> (Vec<String>, usize) {
         });
     }
     let mut limit: Option<u64> = None;
+    let mut lock_holder: Option<std::fs::File> = None;
     for (si, op) in flat.iter().enumerate() {
+        if let Op::AdvisoryLock { exclusive } = op {
+            lock_holder = None;
+            if let Some(x) = exclusive {
+                use std::os::unix::io::AsRawFd;
+                if let Ok(f) = std::fs::File::open(&entry) {
+                    unsafe {
+                        libc::flock(f.as_raw_fd(), if *x { libc::LOCK_EX } else { libc::LOCK_SH });
+                    }
+                    lock_holder = Some(f);
+                }
+            }
+            continue;
+        }
         if let Op::FileSizeLimit { bytes } = op {
             limit = if *bytes == 0 { None } else { Some(*bytes) };
             continue;
@@ -433,11 +459,11 @@ fn run_history(dir: &Path, img: &Image, ops: &[Op]) -> (Vec<String>, usize) {
         steps += 1;
         let here = dir.to_string_lossy().to_string();
         let resolve = |l: &String| -> String {
-            let r = l.replace("<DIR>", &here);
+            let r = l.replace("<DIR>", &here).replace("<ENTRY>", &img.files[0].0);
             if r.len() <= 213 {
                 r
             } else {
-                l.replace("<DIR>", "/d")
+                l.replace("<DIR>", "/d").replace("<ENTRY>", &img.files[0].0)
             }
         };
         let (uuid, loc, target) = match op {
@@ -447,7 +473,7 @@ fn run_history(dir: &Path, img: &Image, ops: &[Op]) -> (Vec<String>, usize) {
                 Rng::derive(*uuid_seed, "c12-unknown-uuid", 0).fill(&mut b);
                 (uuid::Uuid::from_bytes(b), resolve(loc), None)
             }
-            Op::RestoreAll | Op::FileSizeLimit { .. } => unreachable!(),
+            Op::RestoreAll | Op::FileSizeLimit { .. } | Op::AdvisoryLock { .. } => unreachable!(),
             Op::SetEquivalent { pack, how } => {
                 let cur = model[*pack].location.clone();
                 let new = match how {
@@ -571,6 +597,29 @@ fn run_history(dir: &Path, img: &Image, ops: &[Op]) -> (Vec<String>, usize) {
             }
         }
         prev = now;
+        // (only while the directory pack's own location is the original one: a container whose
+        // directory pack cannot be found is outside every claimed property, see DESIGN 4 / C12)
+        // (and only for containers of loose packs: BasicCreator's two-file packagings cannot be read
+        // through Container::get_pack on the pinned tree, which is C10's subject)
+        if !img.one_file && img.name.contains("loose") && model.len() <= 8 && si % 2 == 0 && model[0].location == original[0] {
+            // a container whose packs are separate files: whatever the locations now say, it opens,
+            // and its check covers the packs that can be found (no error, no false)
+            match jubako::reader::Container::new(&entry) {
+                Err(e) => bad.push(format!("{step}: the container no longer opens: {}", dump::err_class(&e))),
+                Ok(c) => {
+                    for p in 1..=(model.len() as u16 + 6) {
+                        if let Err(e) = c.get_pack(jubako::PackId::from(p)) {
+                            bad.push(format!("{step}: get_pack({p}) answers Err({}) instead of a pack or 'missing'", dump::err_class(&e)));
+                            break;
+                        }
+                    }
+                    match c.check() {
+                        Ok(true) => {}
+                        other => bad.push(format!("{step}: Container::check() answers {:?}", other.map_err(|e| dump::err_class(&e)))),
+                    }
+                }
+            }
+        }
         if img.one_file && si % 3 == 0 {
             // packs are found by uuid inside the file: everything still reads whatever the locations say
             let d = dump::dump_container(&entry, &img.spec);
@@ -619,6 +668,7 @@ fn ops_json(ops: &[Op]) -> Value {
             Op::RestoreAll => json!("restore-all"),
             Op::SetEquivalent { pack, how } => json!({"equivalent": pack, "how": how}),
             Op::FileSizeLimit { bytes } => json!({"file-size-limit": bytes}),
+            Op::AdvisoryLock { exclusive } => json!({"advisory-lock": exclusive}),
         })
         .collect::<Vec<_>>())
 }
@@ -630,6 +680,8 @@ fn ops_from_json(v: &Value) -> Vec<Op> {
         .map(|o| {
             if o == "restore-all" {
                 Op::RestoreAll
+            } else if let Some(x) = o.get("advisory-lock") {
+                Op::AdvisoryLock { exclusive: x.as_bool() }
             } else if let Some(b) = o.get("file-size-limit") {
                 Op::FileSizeLimit {
                     bytes: b.as_u64().unwrap(),
